@@ -203,3 +203,24 @@ Proof.
   apply fit_is_cluster; [exact I|left; discriminate].
 Qed.
 End Example_more.
+
+Module Example_run.
+Import Example_abstract.
+Definition ts0 : list template := [(mk 29, 5%Z)].
+Definition run0 := cluster iso0 ANone data ts0.
+Lemma ts0_coherent : coherent_iso iso0 (fun _ => True) ts0.
+Proof. split; [repeat constructor|]. intros t t' [<-|[]] [<-|[]]. vm_compute. split; reflexivity. Qed.
+
+Example incremental_run_nonvacuous :
+  run0 = ([6; 5; 6; 5]%Z, [(mk 29, 5%Z); (mk 11, 6%Z)]) /\
+  (forall i j x y c c', nth_error data i = Some x -> nth_error data j = Some y ->
+      nth_error (fst run0) i = Some c -> nth_error (fst run0) j = Some c' -> (c = c' <-> iso0 x y = true)) /\
+  (forall i x c t, nth_error data i = Some x -> nth_error (fst run0) i = Some c -> In t (snd run0) ->
+      (c = snd t <-> iso0 (fst t) x = true)).
+Proof.
+  split; [vm_compute; reflexivity|].
+  destruct (incremental_run iso0 ANone (fun _ => True) iso0_refl iso0_sym iso0_trans attr0 data ts0 (fst run0) (snd run0)
+              ts0_coherent data_D (surjective_pairing run0)) as (_ & _ & _ & H1 & H2).
+  split; [exact H1|exact H2].
+Qed.
+End Example_run.
